@@ -99,7 +99,8 @@ def replay(path):
                     v = vv.get(cid)
                     why = eng_setstage.judge(v) if v else None
                     print("%s [set-stage, HWLOC_LIBXML=%d] -> %s" % (l, lx, "no stage dump (load failed before the stage)" if not v or not v["pre"]
-                                                                     else why or (v["pre"] + " / " + v["post"])))
+                                                                     else why or (v["pre"] + " / " + v["post"] + "".join(
+                                                                         " / " + v.get("s2", {})[k] for k in eng_setstage.STAGES2 if k in v.get("s2", {})))))
                     if rr.returncode != 0 or why:
                         bad += 1
         finally:
